@@ -35,6 +35,8 @@ fn main() {
     let mut rng = Rng::new(seed);
     let run = match comp.as_str() {
         "packet" => tvh::packet::run(&mut rng, thorough, &corpus),
+        "cksum" => tvh::cksum::run(&mut rng, thorough, &corpus),
+        "strategy" => tvh::strategy::run(&mut rng, thorough, &corpus),
         _ => { eprintln!("unknown component {comp}"); std::process::exit(2); }
     };
     run.write(&out, &comp).expect("write outputs");
